@@ -125,9 +125,23 @@ def main():
         if confirm:
             sh("git worktree remove --force %s" % WT, cwd="/repo")
             sh("rm -rf %s" % WT)
+    # the matrix is always regenerated from every meta.json present (so --only merges into it)
+    allrows = []
+    for sid in sorted(d for d in os.listdir(os.path.join(VERIF, "seeded")) if os.path.isdir(os.path.join(VERIF, "seeded", d))):
+        mp = os.path.join(VERIF, "seeded", sid, "meta.json")
+        if not os.path.exists(mp):
+            allrows.append("| %s | (not yet evaluated) | ? | ? | `-` |" % sid)
+            continue
+        meta = json.load(open(mp))
+        conf = meta.get("confirmed", {}).get("ok")
+        chk = meta.get("check", {})
+        det = chk.get("detected")
+        rule = (chk.get("rules_fired") or ["-"])[0].replace("rule: ", "")[:90]
+        also = ", ".join(meta.get("also_caught_by", []))
+        allrows.append("| %s | %s | %s | %s | `%s` |%s" % (sid, (meta.get("summary") or "")[:110].replace("|", "/").replace("\n", " "), "yes" if conf else ("?" if conf is None else "NO"), "caught" if det else "MISSED (exit %s)" % chk.get("exit"), rule.replace("|", "/"), (" " + also) if also else ""))
     with open(os.path.join(VERIF, "seeded", "MATRIX.md"), "w") as f:
-        f.write("| seeded change | what was changed | confirmed (compiles, 74 tests pass, demo fails only with it) | %s check of its property | first rule that fired |\n|---|---|---|---|---|\n" % tier)
-        f.write("\n".join(rows) + "\n")
+        f.write("| seeded change | what was changed | confirmed (compiles, 74 tests pass, demo fails only with it) | quick check of its property | first rule that fired |\n|---|---|---|---|---|\n")
+        f.write("\n".join(allrows) + "\n")
 
 
 if __name__ == "__main__":
